@@ -7,6 +7,9 @@ def run(ctx, rep):
     tables.rule_operator_tables(ctx, rep, "C06-R1")
     compiler_rules.rule_operator_used(ctx, rep, "C06-R2")
     operators.rule_bool_is_not_a_number(ctx, rep, "C06-R4")
+    operators.rule_strict_equality_excludes_bool(ctx, rep, "C06-R4b")
+    operators.rule_postfix_result_is_number(ctx, rep, "C06-R9")
+    compiler_rules.rule_constant_pool_identity(ctx, rep, "C06-R10")
     operators.rule_unordered_comparisons(ctx, rep, "C06-R6")
     operators.rule_host_operator_pitfalls(ctx, rep, "C06-R7")
     operators.rule_host_truthiness(ctx, rep, "C06-R8")
